@@ -26,7 +26,9 @@ import time
 import xmlsec_core
 from saml2_tophat import sigver
 
-PARK_TIMEOUT = 0.4          # a caller that does not reach a park point (it waits for a lock another caller holds) is left running
+# a caller that does not reach a park point (it waits for a lock another caller holds) is left running; once that has
+# been seen in a run the controller stops waiting long for such callers
+PARK_TIMEOUT = [0.4]
 DEADLINE = 30.0
 
 
@@ -110,7 +112,9 @@ class Sched(object):
                         w.parked.clear()
                         w.go.set()
                     # a caller that does not come back is waiting for something another caller holds: leave it running
-                    w.running = not w.parked.wait(PARK_TIMEOUT)
+                    w.running = not w.parked.wait(PARK_TIMEOUT[0])
+                    if w.running:
+                        PARK_TIMEOUT[0] = 0.02
                     progressed |= not w.running
                     self._look()
                 if time.time() - t0 > DEADLINE:
@@ -157,7 +161,7 @@ class GatedPopen(object):
         s.trace.append(("write", w.name, inp))
         s.park(w, "start", rec)
         rec["seen"] = digest_of_file(inp)
-        s.trace.append(("run", w.name, inp))
+        s.trace.append(("run", w.name, inp, outp))
         self._p = xmlsec_core.FakePopen(argv, stderr, stdout, **kw)
         self.returncode = self._p.returncode
         rec["rc"] = self.returncode
@@ -169,6 +173,7 @@ class GatedPopen(object):
             rec, self._rec = self._rec, None
             self._s.park(self._w, "end", rec)
             rec["out_at_read"] = digest_of_file(rec["output"])
+            self._s.trace.append(("read", self._w.name, rec["output"]))
         return self._p.communicate()
 
 
@@ -235,6 +240,7 @@ from core import Exn  # noqa: E402
 from env import NOW  # noqa: E402
 from saml2_tophat import samlp, class_name  # noqa: E402
 
+IMPORTS, MODEL, CTYPE = "Model.Interleave", "show_exec", "(list (N * N * N) * list ev)"
 SIGNED_GROUPS = [(shape, rs, as_) for shape in ("plain", "encrypted") for rs, as_ in ((True, False), (False, True), (True, True))]
 _sessions = {}
 TRACES = []          # model cases (filled by run_scenario)
@@ -354,7 +360,7 @@ def run_scenario(sc, report=None, out=None):
         if w.error is not None:
             raise w.error
     say("order of resumption per round:", [names[i] for i in sc["order"]])
-    say("events:", [(e, n, p.rsplit("/", 1)[-1]) for e, n, p in sched.trace])
+    say("events:", [(t[0], t[1]) + tuple((p or "-").rsplit("/", 1)[-1] for p in t[2:]) for t in sched.trace])
     for tag, what in judge(sched, texts):
         key = ("temp-path:shared-by-live-calls:%s:%s" % (tag, tail) if tag.endswith("-path-shared")
                else "tool-saw-other-callers-document:%s:%s" % (tag, tail))
@@ -377,21 +383,30 @@ def run_scenario(sc, report=None, out=None):
         elif got != alone:
             rep("concurrent:result-of-other-document:%s:%s" % (tail, cell(c)),
                 "caller %s: %s gave %s, alone it gives %s" % (n, c["msg"], got, alone))
-    # --- the schedule as a model case: paths and texts numbered in order of appearance
-    pid, did, ev = {}, {}, []
+    # --- the schedule as a model case: paths and texts numbered in order of appearance (0 = nothing)
+    pid, did, ev, seen, tool = {}, {None: 0}, [], [], {}
     cid = dict((n, i) for i, n in enumerate(names))
-    seen = []
     per = dict((n, iter(w.runs)) for n, w in zip(names, sched.workers))
     open_run = {}
-    for e, n, p in sched.trace:
+    P = lambda p: pid.setdefault(p, len(pid))          # noqa: E731
+    D = lambda d: did.setdefault(d, len(did))          # noqa: E731
+    for t in sched.trace:
+        e, n = t[0], t[1]
         if e == "write":
             r = open_run[n] = next(per[n])
-            ev.append(("W", cid[n], pid.setdefault(p, len(pid)), did.setdefault(r["written"], len(did))))
+            ev.append("Write %d %d %d" % (cid[n], P(t[2]), D(r["written"])))
+        elif e == "run":
+            r = open_run[n]
+            kind = 1 if r["cmd"] == "decrypt" else 0
+            ev.append("Run %d %d %d %d" % (cid[n], kind, P(t[2]), P(t[3])))
+            seen.append([cid[n], D(r.get("seen")) if r.get("seen") else None])
+            tool[(kind, D(r.get("seen")))] = D(r.get("out_after_run"))
         else:
             r = open_run[n]
-            ev.append(("R", cid[n], pid.setdefault(p, len(pid)), 0))
-            seen.append([cid[n], did.setdefault(r.get("seen"), len(did))])
-    TRACES.append(dict(events=ev, seen=seen, show=sc))
+            ev.append("Read %d %d" % (cid[n], P(t[2])))
+            seen.append([cid[n], D(r.get("out_at_read")) if r.get("out_at_read") else None])
+    coq = "([%s], [%s])" % ("; ".join("(%d, %d, %d)" % (k[0], k[1], v) for k, v in sorted(tool.items())), "; ".join(ev))
+    TRACES.append(dict(coq=coq, events=ev, seen=seen, show=sc))
     return findings
 
 
